@@ -19,6 +19,20 @@ func c20w(cat, form, ctx string) json.RawMessage {
 	return rawJSON(&C20Case{Cat: cat, Form: form, Ctx: ctx, Import: "plain"})
 }
 
+// specD30: an accepted program whose package also declares a type alias of
+// the marker type.
+func specD30() *Spec {
+	s := &Spec{ImportAlias: map[int]string{}, Pkgs: []Pkg{{Name: "app"}}}
+	foo := Named(addFreshStruct(s, 0, "Foo"))
+	nf := addItem(s, Item{Kind: "func", Name: "NewFoo", Out: foo})
+	s.Sets = []Set{{Pkg: 0, Name: "Good", Args: []Ref{RItem(nf)}, AliasOf: -1}}
+	s.Injectors = []Injector{{Name: "InitFoo", Out: foo, Args: []Ref{RSet(0)}}}
+	s.PkgExtra = map[int]string{0: "type ZzSetType = wire.ProviderSet\n"}
+	s.PkgExtraImports = map[int][]string{0: {"\"github.com/google/wire\""}}
+	refreshPlan(s)
+	return s
+}
+
 // specD28: a struct with a blank field built by the all-fields form.
 func specD28() *Spec {
 	s := &Spec{ImportAlias: map[int]string{}, Pkgs: []Pkg{{Name: "app"}}}
@@ -179,6 +193,7 @@ func WriteFindings(commits map[string]string) error {
 		fixed("D28", "C12", "D28", "wire.Struct(new(S), \"*\") for struct{ A FA; _ FB }: the blank field was treated as an input (a provider for FB was demanded; with one, S{A: a, _: b} was emitted, which does not compile), and \"_\" was accepted as a field name by wire.Struct and wire.FieldsOf", "C12 program the documented rules accept was rejected", rawJSON(specD28())),
 		fixed("D29", "C17", "D29", "wire gen ./... / wire diff ./... in a module with a directory that only holds _test.go files: \"no files to derive output directory from\", generate failed (exit 1 / 2) although every package with injectors generated", "C17 exit status differs from the command-line contract",
 			rawJSON(&CLICase{Pkgs: []cliPkg{{Name: "pa", Kind: "ok"}}, Steps: []CLIStep{{Op: "gen"}, {Op: "diff"}}})),
+		fixed("D30", "C19", "D30", "type ZzSetType = wire.ProviderSet in a package that gen accepts: wire check and wire show fail with \"type ... is not a provider or a provider set\"", "C19 check disagrees with gen and the reference verdict", rawJSON(specD30())),
 		known("D15", "C20", "injector body with extra statements: the invalid-injector diagnostic of `wire gen` carries no file:line:col position (its text is pinned by golden file InvalidInjector of the repository's suite, so a repair would change an expected output)", "C20 failure without a positioned diagnostic",
 			rawJSON(&C20Case{Cat: "injector", Form: "func Inject() S { y := 1; _ = y; wire.Build(NewS); return S{} }", Import: "plain"})),
 		known("D20", "C13", "wire.InterfaceValue(new(I), f()) is accepted and the call is copied into the generated package-level variable (the repository's golden test InterfaceValue uses strings.NewReader(...) and pins acceptance)", "C13",
